@@ -60,9 +60,9 @@ MaskBits(x, d)  == [k \in 1..d |-> (x \div IPow(2, k - 1)) % 2]
 (* scopes                                                                  *)
 (***************************************************************************)
 NSeeds == IF Model = "prq"     THEN (IF Thorough THEN 6000 ELSE 900)
-          ELSE IF Model = "divcurl" THEN (IF Thorough THEN 5000 ELSE 700)
+          ELSE IF Model = "divcurl" THEN (IF Thorough THEN 5000 ELSE 500)
           ELSE IF Model = "vib"     THEN (IF Thorough THEN 3000 ELSE 400)
-          ELSE IF Model = "decomp"  THEN (IF Thorough THEN 1500 ELSE 160)
+          ELSE IF Model = "decomp"  THEN (IF Thorough THEN 1500 ELSE 126)
           ELSE (IF Thorough THEN 1500 ELSE 120)
 
 \* --- prq
@@ -131,7 +131,7 @@ VibScope ==
 Boxes2 == << <<4, 8>>, <<3, 5>>, <<6, 4>>, <<5, 5>>, <<8, 2>> >>
 Boxes3 == << <<4, 6, 8>>, <<4, 4, 8>>, <<8, 4, 6>>, <<6, 6, 6>>, <<2, 4, 8>> >>
 DecompScope ==
-  { LET d == IF seed % 5 = 0 THEN 3 ELSE 2      \* 124 wave vectors per 3-D case, 24 per 2-D case
+  { LET d == IF seed % 6 = 0 THEN 3 ELSE 2      \* 124 wave vectors per 3-D case, 24 per 2-D case
         n == 1 + (Hh(seed, 1, 1) % (IF d = 2 THEN 5 ELSE 4))
     IN  [id |-> seed, d |-> d, L |-> (IF d = 2 THEN Pick(seed, 2, Boxes2) ELSE Pick(seed, 2, Boxes3)),
          S |-> Pick(seed, 3, <<1, 2>>),
